@@ -246,6 +246,11 @@ def main(run):
                             disp[nm + "_pd"] = rng.uniform(0.05, 0.15); disp[nm + "_pd_n"] = 12 if len(lens_) > 1 else 130
                         mode = rng.randint(1, len(modes))
                         stats["meshes_beyond_one_invocation"] = stats.get("meshes_beyond_one_invocation", 0) + 1
+                        # ... with angular jitter on top in 2-D: the jitter weight (with its |cos| factor) multiplies every
+                        # accumulated quantity alike, so the mean effective radius is still the mean over the sizes
+                        if dim == "2d" and "theta" in pdn:
+                            disp["theta_pd"] = rng.uniform(5, 25); disp["theta_pd_n"] = rng.choice([3, 4])
+                            stats["reff_with_jitter"] = stats.get("reff_with_jitter", 0) + 1
                 er_disp = {}
                 er_par = [x for x in info.parameters.call_parameters if x.name == "radius_effective"][0]
                 if rng.random() < 0.3 and er_par.polydisperse and "radius_effective" in (info.parameters.pd_2d if dim == "2d" else info.parameters.pd_1d):
@@ -311,14 +316,18 @@ def main(run):
                     cp_ = pinfo.parameters.call_parameters
                     act = [(p_.name, np.asarray(m_[1], "d"), np.asarray(m_[2], "d")) for p_, m_ in zip(cp_, mesh_) if len(m_[2]) > 1 and not (p_.type == "orientation")]
                     npts_ = int(np.prod([len(w_) for _, _, w_ in act])) if act else 0
-                    if act and npts_ <= 320 and all(len(m_[2]) == 1 for p_, m_ in zip(cp_, mesh_) if p_.type == "orientation"):
+                    jit_ = any(len(m_[2]) > 1 for p_, m_ in zip(cp_, mesh_) if p_.type == "orientation")
+                    if act and npts_ <= 320:
+                        # with angular jitter the product measure factorises only without a cutoff: compare at cutoff 0
+                        reff_c, shell_c = (reff, shell) if not jit_ else [float(x) for x in call_Fq(pk, fq, cutoff=0.0)[2:4]]
+                        wcut_ = 1e-5 if not jit_ else 0.0
                         wn = wr = wsh = wfo = 0.0
                         for idx in _it.product(*[range(len(w_)) for _, _, w_ in act]):
                             w = 1.0
                             pt = {k_: v_ for k_, v_ in ppars.items()}
                             for (nm_, vals_, wts_), i_ in zip(act, idx):
                                 w *= float(wts_[i_]); pt[nm_] = float(vals_[i_])
-                            if not w > 1e-5:
+                            if not w > wcut_:
                                 continue
                             r1 = call_Fq(pk, dict(pt, scale=1.0, background=0.0, radius_effective_mode=mode), cutoff=0.0)
                             if not (sas.raw_sums(pk, len(q[0]))["norm"] > 0):
@@ -326,9 +335,9 @@ def main(run):
                             wn += w; wr += w * float(r1[2]); wsh += w * float(r1[3]); wfo += w * float(r1[3]) * float(r1[4])
                         evals += npts_
                         stats["brute_force_reff"] = stats.get("brute_force_reff", 0) + 1
-                        if wn > 0 and (abs(wr / wn - reff) > 1e-9 * abs(reff) + 1e-300 or abs(wsh / wn - shell) > 1e-9 * abs(shell)):
-                            run.add(Finding("C07:reff:%s" % pn, "%s (%s, mode %d, mesh of %d points): call_Fq reports R_eff = %.12g, V_shell = %.12g; the weighted means over the mesh are %.12g, %.12g" % (
-                                pn, dim, mode, npts_, reff, shell, wr / wn, wsh / wn), dict(desc, reff=float(reff), brute_force_reff=wr / wn)))
+                        if wn > 0 and (abs(wr / wn - reff_c) > 1e-9 * abs(reff_c) + 1e-300 or abs(wsh / wn - shell_c) > 1e-9 * abs(shell_c)):
+                            run.add(Finding("C07:reff:%s" % pn, "%s (%s, mode %d, mesh of %d size points%s): call_Fq reports R_eff = %.12g, V_shell = %.12g; the weighted means over the mesh are %.12g, %.12g" % (
+                                pn, dim, mode, npts_, " x angular jitter" if jit_ else "", reff_c, shell_c, wr / wn, wsh / wn), dict(desc, reff=float(reff_c), brute_force_reff=wr / wn)))
                 sp = dict(spars)
                 sp.update(scale=1.0, background=0.0, volfraction=volfrac * ratio)
                 if mode > 0:
